@@ -407,6 +407,50 @@ func bodySeedThenList(p, other pred, name string) func() {
 	}
 }
 
+// bodyEquiv: the collection was built with a COARSE equivalence (every two values of an item are "the same" - a
+// tolerance wider than the predicate's threshold). That may thin out UPDATE events between two values that both match;
+// whether an item matches the predicate at all is another matter: crossing the predicate's boundary is an ADD or a
+// REMOVE for the filtered subscriber, and folding the filtered stream still gives List's MEMBERS.
+func bodyEquiv(p pred, hist []wop, backpressure bool, name string) func() {
+	return func() {
+		col := resource.NewCollection(resource.WithMessageEquivalence(func(x, y proto.Message) bool { return x != nil && y != nil }))
+		ctx, cancel := context.WithCancel(context.Background())
+		defer cancel()
+		view := map[string]bool{}
+		var got []ev
+		ch := col.Pull(ctx, resource.WithInclude(p.fn()), resource.WithBackpressure(backpressure))
+		go func() {
+			for e := range ch {
+				got = append(got, ev{e.ChangeType.String(), e.Id, vOf(e.OldValue), vOf(e.NewValue)})
+				if e.ChangeType == types.ChangeType_REMOVE {
+					delete(view, e.Id)
+				} else {
+					view[e.Id] = true
+				}
+			}
+		}()
+		for _, w := range hist {
+			apply(col, w)
+			if backpressure {
+				verifrt.WaitIdle()
+			}
+		}
+		verifrt.WaitIdle()
+		var parts, wl []string
+		for _, id := range []string{"a", "b"} {
+			if view[id] {
+				parts = append(parts, id)
+			}
+			if m, ok := col.Get(id); ok && p.holds(id, vOf(m)) {
+				wl = append(wl, id)
+			}
+		}
+		if v, l := strings.Join(parts, ","), strings.Join(wl, ","); v != l {
+			verifrt.Logf("FAIL fold-members-coarse-equivalence %s ## the folded filtered stream holds {%s}, the filtered collection {%s}; events %v", name, v, l, got)
+		}
+	}
+}
+
 type bcase struct {
 	P      int
 	H      []wop
@@ -622,6 +666,20 @@ func main() {
 		p, o := pred(pp[0]), pred(pp[1])
 		name := fmt.Sprintf("seed-then-list/Pull %v; update b; List and Pull %v/a=1,b=2", p, o)
 		h.Sched(name, 2, 3, bodySeedThenList(p, o, name), hx.StdOracle)
+	}
+	for _, p := range []int{0b000100, 0b000010, 0b100100} {
+		for _, bp := range []bool{true, false} {
+			for _, hist := range [][]wop{
+				{{"add", "a", 1}, {"update", "a", 2}},
+				{{"add", "a", 2}, {"update", "a", 1}},
+				{{"add", "a", 1}, {"update", "a", 2}, {"update", "a", 1}},
+				{{"add", "b", 1}, {"add", "a", 2}, {"update", "b", 2}, {"update", "a", 1}},
+			} {
+				p, bp, hist := p, bp, hist
+				name := fmt.Sprintf("coarse-equivalence/bp=%v/%v/%v", bp, pred(p), hist)
+				h.Sched(name, -1, -1, bodyEquiv(pred(p), hist, bp, name), hx.StdOracle)
+			}
+		}
 	}
 	// the subscription opened concurrently with the writes
 	for _, p := range []int{0b111111, 0b000110, 0b010010} {
